@@ -7,7 +7,8 @@ import EdzedModel.OutputAsync
 import EdzedProofs.OutputAsync
 import EdzedModel.Gen.TranslatedOutputAsync
 
-namespace Edzed.TrTie
+/- helpers live in `Edzed.TrTie.OA` (the theorems of the property file are in `Edzed.TrTie`) -/
+namespace Edzed.TrTie.OA
 open Edzed.OutputAsync Edzed.Gen.TrD Edzed.Gen.TrOA
 
 /-! ### `utils.shield_cancel` -/
@@ -349,4 +350,4 @@ def guardPart (c : Cfg) (s : State) : State := if 0 < c.guard then sleepGuard c 
 def runPwith (c : Cfg) (oc : Outcome) (body : Job → M State Exc Unit Unit) : RunPrims State Exc Job Unit Dest :=
   { runP0 c oc with runCoro := body }
 
-end Edzed.TrTie
+end Edzed.TrTie.OA
